@@ -360,8 +360,8 @@ class Sandbox:
         for f in files:
             if f[0] == "w":
                 try:
-                    with open(self.p(*f)) as fh:
-                        content[f] = fh.read(64)
+                    with open(self.p(*f), "rb") as fh:     # binary: files need not be text
+                        content[f] = fh.read(64).decode("latin-1")
                 except OSError:
                     pass
         return {"cwd": cwd, "env": dict(os.environ), "dirs": sorted(dirs), "files": sorted(files),
